@@ -613,8 +613,15 @@ def shape_stream():
     """Deterministic heap-shape stream: queues of 7..15 entries built from a few priority patterns,
     one middle removal (remove / find-remove / reschedule) at every position, then a full drain.
     Heap-repair mistakes after a middle removal need a particular layout; this enumerates them."""
+    def lopsided(i):
+        # everything under the root's left child is far less urgent than everything under its right
+        # child: the array tail (right subtree) is then smaller than inner nodes' parents on the left
+        j = i
+        while j > 2:
+            j = (j - 1) // 2
+        return 0 if i == 0 else (100 + i if j == 1 else i)
     patterns = [lambda i: -1 if i % 3 == 0 else 0, lambda i: i % 2, lambda i: (i * 7) % 3 - 1,
-                lambda i: 1 - (i % 3), lambda i: 0 if i < 4 else -1]
+                lambda i: 1 - (i % 3), lambda i: 0 if i < 4 else -1, lopsided]
     for n in (7, 8, 10, 11, 13, 15):
         for pi, pat in enumerate(patterns):
             for k in range(n):
